@@ -40,6 +40,34 @@ def run(ctx):
                     nperm += 1
             if len(explicit) >= 2:
                 SP.one_case(eng, res, sc, args, opts, list(reversed(explicit)), sc.enum_random(walked, rng), S.HIST_KEYS, "root order")
+            # the order of the roots: references (walked or not) come first in sorted order, then the ROOT arguments in
+            # command-line order; a ROOT equal to the object of the last reference, twin references of which only the
+            # second is selected, and both orders of two ROOTs
+            if sc.refs:
+                srefs = sorted(sc.refs)
+                lastobj = srefs[-1][1]
+                other = [x for _, x in srefs if x != lastobj][:1]
+                ex = [(sc.oids[lastobj].hex(), lastobj)] + [(sc.oids[o].hex(), o) for o in other]
+                for e in (ex, list(reversed(ex)), ex[:1]):
+                    w2 = [r["obj"] for r in SC.build_roots(sc, [], e) if r["walk"]]
+                    SP.one_case(eng, res, sc, [], [], e, sc.enum_random(w2, rng), S.HIST_KEYS, "root order (ROOT = object of the last reference)")
+                name_a, x = rng.choice(srefs)
+                twin = name_a + b"-twin"
+                if all(not (n.startswith(twin + b"/") or twin.startswith(n + b"/") or n == twin) for n, _ in sc.refs):
+                    sc2 = S.Scenario()
+                    sc2.objects = [dict(o) for o in sc.objects]
+                    sc2.refs = list(sc.refs) + [(twin, x)]
+                    sc2 = sc2.normalize()
+                    x2 = dict(sc2.refs)[twin]
+                    for a2, o2 in ((["--include", twin.decode("latin1")], [(True, "prefix", twin)]),
+                                   (["--exclude", name_a.decode("latin1"), "--include", twin.decode("latin1")],
+                                    [(False, "prefix", name_a), (True, "prefix", twin)])):
+                        try:
+                            twin.decode("utf-8")
+                        except UnicodeDecodeError:
+                            break
+                        w3 = [r["obj"] for r in SC.build_roots(sc2, o2, []) if r["walk"]]
+                        SP.one_case(eng, res, sc2, a2, o2, [], sc2.enum_random(w3, rng), S.HIST_KEYS, "twin references, only the second selected")
             if it % (2 if quick else 1) == 0:
                 for packed, pack_refs in ((False, False), (True, False), (True, True)):
                     SP.one_case(eng, res, sc, args, opts, explicit, None, S.HIST_KEYS, "layout", real=True, packed=packed,
